@@ -8,7 +8,8 @@ From AJ Require Proofs.FloatRT.
 Local Open Scope Z_scope.
 
 (* deserializeJson(serializeJson(d)) = d : structure, order, strings and integers exact (float-free documents;
-   floating-point leaves go through C12's printing/parsing, tied bit-exactly by correspondence) *)
+   floating-point leaves go through C12's printing/parsing, tied bit-exactly by correspondence).  [nofloat] and
+   [ser_ok_floats] include: every string and key has at most 65535 bytes (StringNode::maxLength) *)
 Theorem C07_json_roundtrip : forall cf, decode_unicode cf = true ->
   forall v, nofloat v -> forall L, (nesting v <= L)%nat ->
   j_err (json_run cf None L (ser cf v)) = Ok /\ j_doc (json_run cf None L (ser cf v)) = v.
